@@ -23,6 +23,14 @@ func main() {
 		err = cmdLife(os.Args[2:])
 	case "exp":
 		err = cmdExp(os.Args[2:])
+	case "hlc":
+		err = cmdHLC(os.Args[2:])
+	case "stress":
+		err = cmdStress(os.Args[2:])
+	case "crashchild":
+		err = cmdCrashChild(os.Args[2:])
+	case "crashcheck":
+		err = cmdCrashCheck(os.Args[2:])
 	default:
 		err = fmt.Errorf("unknown command %s", os.Args[1])
 	}
